@@ -55,6 +55,7 @@ def exhaustive_short(ctx: vf.Ctx):
     """all histories of length <= 4 over a small alphabet on 2 qudits"""
     import itertools
     import circ_common as cc
+    import circ_run as cr
     X = lambda q: (0, 1, (q,), (), (2,), ())
     CX = lambda a, b: (0, 4, (a, b), (), (2, 2), ())
     alpha = [('append', X(0)), ('append', CX(0, 1)), ('append', CX(1, 0)), ('insert', 0, X(1)), ('insert', -1, CX(0, 1)),
@@ -67,7 +68,13 @@ def exhaustive_short(ctx: vf.Ctx):
             c = cc.Circuit(2)
             for step, call in enumerate(hist):
                 pre = cc.snap(c)
-                out = cc.apply_impl(c, call)
+                try:
+                    with cr.watchdog(30):
+                        out = cc.apply_impl(c, call)
+                except cr.HistoryTimeout:
+                    sig, what = classify(dict(kind='hang', call=call, detail='no return within 30s'))
+                    ctx.violation(sig, dict(kind='circuit-history', pre=pre, call=call), 'the call returns', 'no return', what)
+                    break
                 f = None
                 if out.kind == 'E' and out.val.startswith('Internal'):
                     f = dict(kind='internal_error', call=call, detail=out.val, pre=pre, step=step)
